@@ -13,6 +13,42 @@ from core import Run, Violation, Skip, new_entropy
 from stateworld import StateWorld, RefGate
 
 
+def relayout2d(gs, ps, how):
+    """same values, other storage."""
+    rows, cols = gs.shape
+    if how == "F":
+        return np.asfortranarray(gs), ps
+    if how == "cols":
+        big = np.zeros((rows, 2 * cols), dtype=gs.dtype)
+        big[:, ::2] = gs
+        return big[:, ::2], ps
+    big = np.zeros((2 * rows, cols), dtype=gs.dtype)
+    big[::2] = gs
+    pb = np.zeros(2 * rows, dtype=ps.dtype)
+    pb[::2] = ps
+    return big[::2], pb[::2]
+
+
+def warm_layouts():
+    """JIT only: compile the kernel specialisations for every storage layout in the tranche
+    parent (chunks run in fresh forks and would otherwise each recompile)."""
+    pc = sut.load()
+    for how in ("F", "cols", "rows"):
+        for mk in (lambda g, p: pc.PauliList(g, p), lambda g, p: pc.CliffordMap(g, p)):
+            for masked in (False, True):
+                try:
+                    base = pc.identity_map(2)
+                    g, p = relayout2d(np.array(base.gs).copy(), np.array(base.ps).copy(), how)
+                    o = mk(g, p)
+                    m = np.array([True, False]) if masked else None
+                    gen = pc.pauli("X") if masked else pc.pauli("XZ")
+                    o.rotate_by(gen, m) if masked else o.rotate_by(gen)
+                    mp = pc.identity_map(1) if masked else pc.identity_map(2)
+                    o.transform_by(mp, m) if masked else o.transform_by(mp)
+                except Exception:
+                    pass
+
+
 class CircWorld(StateWorld):
     """reuses gate construction from StateWorld."""
     prop_id = "C09"
@@ -119,15 +155,20 @@ class CircWorld(StateWorld):
         cnt = rng.choice([n, n, rng.randrange(1, n + 1)])
         return {"ptype": "state", "gens": sut.strs(rm.rand_commuting_independent(rng, n, cnt))}
 
+    def _layout(self, rng, probe):
+        if probe["ptype"] in ("list", "map", "state", "poly") and rng.random() < 0.2:
+            probe["layout"] = rng.choice(["F", "cols", "rows"])
+        return probe
+
     def _p_fwd(self, rng):
-        return {"op": "fwd", "circ": self._pickc(rng), "probe": self._probe(rng)}
+        return {"op": "fwd", "circ": self._pickc(rng), "probe": self._layout(rng, self._probe(rng))}
 
     def _p_roundtrip(self, rng):
         name = self._pickc(rng)
         c = self.cw[name]
         unit = rng.choice(["circuit", "circuit", "layer", "gate"])
         op = {"op": "roundtrip", "circ": name, "unit": unit, "order": rng.choice(["fb", "bf"]),
-              "probe": self._probe(rng)}
+              "probe": self._layout(rng, self._probe(rng))}
         if unit in ("layer", "gate") and rng.random() < 0.3:
             op["copy"] = True   # round trip through a copy() of the unit in its current cache state
         if unit == "layer":
@@ -142,7 +183,7 @@ class CircWorld(StateWorld):
         """a gate that never entered a circuit: its lazily filled inverse caches are in
         whatever state this very call sequence leaves them."""
         return {"op": "freshgate", "spec": self._gate_spec(rng, allow_random=False), "order": rng.choice(["fb", "bf"]),
-                "probe": self._probe(rng), "precompile": rng.random() < 0.3, "copy": rng.random() < 0.3}
+                "probe": self._layout(rng, self._probe(rng)), "precompile": rng.random() < 0.3, "copy": rng.random() < 0.3}
 
     # ---------------------------------------------------------- execution
     def apply(self, op):
@@ -393,9 +434,24 @@ class CircWorld(StateWorld):
             raise Skip()
         return st, a, "state"
 
-    def copy_probe(self, obj, kind):
-        """an independent duplicate built by the harness (copy() itself is C17's business)."""
+    def copy_probe(self, obj, kind, layout=None):
+        """an independent duplicate built by the harness (copy() itself is C17's business).
+        `layout`: the same values in another legal storage (Fortran order, column- or
+        row-strided views of larger buffers) - what arrays look like after slicing, transposing
+        or CliffordMap.inverse(); the unit under test must not care."""
         pc, S = self.pc, self.S
+        if layout and S.name == "numpy" and kind in ("list", "map", "state", "poly"):
+            gs, ps = relayout2d(np.array(obj.gs).copy(), np.array(obj.ps).copy(), layout)
+            self.stats["storage_layout"] += 1
+            if kind == "list":
+                return pc.PauliList(gs, ps)
+            if kind == "map":
+                return pc.CliffordMap(gs, ps)
+            if kind == "poly":
+                return pc.PauliPolynomial(gs, ps).set_cs(np.array(obj.cs).copy())
+            st = pc.StabilizerState(gs=gs, ps=ps)
+            st.r = int(obj.r)
+            return st
         if kind == "pauli":
             return pc.Pauli(S.clone(obj.g), int(obj.p))
         if kind == "list":
@@ -450,7 +506,7 @@ class CircWorld(StateWorld):
             self.probes["comparison_suspended(stale)"] += 1
             raise Skip()
         obj, val, kind = self.make_probe(op["probe"])
-        a = self.copy_probe(obj, kind)
+        a = self.copy_probe(obj, kind, op["probe"].get("layout"))
         b = self.copy_probe(obj, kind)
         try:
             c["obj"].forward(a)
@@ -500,7 +556,7 @@ class CircWorld(StateWorld):
 
     def _roundtrip(self, unit_fwd, unit_bwd, order, probe, ctx):
         obj, val, kind = self.make_probe(probe)
-        x = self.copy_probe(obj, kind)
+        x = self.copy_probe(obj, kind, probe.get("layout"))
         before_raw = self._raw(x, kind)
         before = self.observe(x, kind)
         r0 = int(x.r) if kind == "state" else None
